@@ -63,6 +63,7 @@ fn real_reload(c: &BuiltCase, graph: &mut ModuleGraph, specs: &[String]) -> Vec<
     unstable_text_imports: c.unstable.1,
     unstable_css_imports: c.unstable.2,
     passthrough_jsr_specifiers: c.world.passthrough_jsr,
+    resolver: c.world.resolver.as_ref().map(|r| r as &dyn deno_graph::source::Resolver),
     npm_resolver: npm.as_ref().map(|r| r as &dyn deno_graph::source::NpmResolver),
     executor: &exec,
     ..Default::default()
